@@ -17,8 +17,16 @@ any non-local usage, any limit):
   the sense of `Spec.SchedMem.BufferSufficient` (the hypotheses of C10's `rolling_sufficient`);
   `buffer_map_stale_witness`: a cache that outlives one call does not have this property (serves C10 / C02);
 * (a) `cascade_estimate_closed_form`, `dedicated_sram_cascade_within_limit` — what `CascadeInfo.mem_usage` stands for, and
-  the hard limit in Dedicated-SRAM mode (serves the Dedicated-SRAM clause of C02 and "reported memory is sufficient" of C12);
-  the bridge to `Model/LiveRange.lean` is `cascade_estimate_covers_liverange_peak` below.
+  the hard limit in Dedicated-SRAM mode; `cascade_liverange_usage`, `cascade_estimate_covers_liverange_peak` — the live ranges
+  `Model/LiveRange.lean` extracts for the operations of an accepted cascade need no more than the builder attributed to it
+  (serves "reported memory is sufficient" of C12 and the Dedicated-SRAM clause of C02); `optimize_accepts_within_limit`,
+  `schedule_estimate_covers_every_operation` — the acceptance test of `optimize_sub_schedule`;
+* (d) `snapshot_is_temporal_usage` — every entry of the memory snapshot is the bytes in use at that tick;
+* (b) `fast_storage_within_limit`, `fast_storage_assertion_holds`, `fast_storage_total` — `use_fast_storage_for_feature_maps`
+  returns, and what it keeps in fast storage fits the limit together with what it cannot move, for every live-range set
+  (the Dedicated-SRAM clause of C02 at the level of live ranges); `forced_to_fast_allowed`;
+* `stripe_input_matches_rolling_hypothesis`, `weight_buffers_within_limit`, `operator_buffering_fits`,
+  `build_cascades_never_out_of_fuel`.
 -/
 namespace VelaVerif.Props.C12Sched
 open VelaVerif VelaVerif.SchedMem VelaVerif.Cascade
